@@ -214,7 +214,20 @@ func (s *Service) attestationData(ctx context.Context,
 	}
 }
 
-func (*Service) attestationDataLoop1(ctx context.Context,
+// earlyExitCount provides the number of identical responses at which the strategy
+// can stop collecting: a strict majority of the providers, but never fewer than the
+// configured threshold (which can be anything up to the number of providers), as
+// otherwise data that would reach the threshold is rejected for being below it.
+func (s *Service) earlyExitCount(requests int) int {
+	count := requests/2 + 1
+	if s.threshold > count {
+		count = s.threshold
+	}
+
+	return count
+}
+
+func (s *Service) attestationDataLoop1(ctx context.Context,
 	started time.Time,
 	requests int,
 	attestationDataResponses map[phase0.Root][]*attestationDataResponse,
@@ -232,7 +245,7 @@ func (*Service) attestationDataLoop1(ctx context.Context,
 	responded := 0
 	errored := 0
 	largestCount := 0
-	strictMajority := requests/2 + 1
+	strictMajority := s.earlyExitCount(requests)
 
 	for responded+errored != requests && largestCount < strictMajority {
 		select {
@@ -282,7 +295,7 @@ func (*Service) attestationDataLoop1(ctx context.Context,
 	return responded, errored
 }
 
-func (*Service) attestationDataLoop2(ctx context.Context,
+func (s *Service) attestationDataLoop2(ctx context.Context,
 	started time.Time,
 	requests int,
 	attestationDataResponses map[phase0.Root][]*attestationDataResponse,
@@ -301,7 +314,7 @@ func (*Service) attestationDataLoop2(ctx context.Context,
 			largestCount = v
 		}
 	}
-	strictMajority := requests/2 + 1
+	strictMajority := s.earlyExitCount(requests)
 
 	for responded+errored != requests && largestCount < strictMajority {
 		select {
